@@ -227,16 +227,29 @@ class Ctx:
         self._rec(kind="prove", query=query, status="inconclusive", seconds=total, reason="too many known-finding rounds")
         return None
 
-    def witness(self, query, I, cond, pre=(), vars=None, validate=None, desc=""):
+    def witness(self, query, I, cond, pre=(), vars=None, validate=None, desc="", good=None):
         """Vacuity / reachability twin: must be satisfiable.  validate(values)->bool compares the real code
-        with the encoding on the witness (translator validation)."""
+        with the encoding on the witness (translator validation).  `good` (optional): the property as the encoding
+        sees it; the witness is then chosen among the behaviours that satisfy it, so that a validate() which checks the
+        property on the real code is a comparison of encoding and implementation (when no such behaviour exists the
+        plain reachability witness is used and validation is skipped)."""
         if self.replay_req is not None:
             return None
         if I is not None:
             self.use(I)
         s = self._solver(I, pre)
         s.add(cond)
-        r, dt = self._check(s)
+        r, dt = None, 0.0
+        if good is not None:
+            s.push()
+            s.add(good)
+            r, dt = self._check(s)
+            if r != "sat":
+                s.pop()
+                validate = None
+                r = None
+        if r is None:
+            r, dt = self._check(s)
         if r == "sat":
             values = {k: pyval(s.model(), t) for k, t in (vars or {}).items()}
             okv = True
